@@ -75,6 +75,25 @@ CHECKS += [
      "design_ref": "DESIGN.md 4/C17", "technique": TLA + " (Output.tla writer model)",
      "note": "line classes from the independent lexer on the output (C family); inputs that begin with a line splice and nested C# interpolated verbatim strings are skipped; comment writers are an environment of the model"},
 ]
+
+ENGINES += [
+    {"name": "lineend", "path": "spec/LineEnd.tla spec/LineEndTrace.tla vlib/checks/c08.py",
+     "serves_properties": ["C08"],
+     "kind_free_text": "TLA+ model of the terminator census (which tokenizer functions count), the choice of cpd.newline with its tie order and the writer's substitution; TLC checks OneTerminator / AutoPicksMostFrequent over all layouts (8 line kinds x 3 terminators x 4 option values) and emits them; each layout is rendered, run as is and in three converted conventions, and judged by the trace specification together with file-level commutation runs"},
+    {"name": "encoding", "path": "spec/Encoding.tla spec/EncodingTrace.tla vlib/checks/c09.py",
+     "serves_properties": ["C09"],
+     "kind_free_text": "byte-level TLA+ transcription of decode_unicode (BOM, ASCII test, zero-count UTF-16 guess, UTF-8 and UTF-16 decoders), the encoding/BOM policy and the encoders; TLC checks NeverAltered / BomPolicy for every payload over a 20-byte alphabet in six encoding forms and all option triples, and emits each file with the predicted output bytes; the binary's bytes are compared with the prediction; exhaustive scalar sweep and transcoding commutation on the binary are judged by the trace specification"},
+]
+CHECKS += [
+    {"id": "C08", "engine": "lineend", "level": "model_checking",
+     "text": "LineEnd.tla is checked for all well-formed layouts <= 4 lines (25k states) and the census of the tree before the repair is shown to violate AutoPicksMostFrequent; all layouts <= 2 lines (3 thorough) x 4 option values plus seeded longer ones are replayed: terminators of the output, census and choice reported by the hook, and byte equality of the outputs for the LF / CRLF / CR conversions of the same layout; dense programs, comment shapes (boxed comments) and corpus files are formatted in LF, CRLF, CR and mixed conventions under lf / crlf / cr.",
+     "design_ref": "DESIGN.md 4/C08", "technique": TLA + " (LineEnd.tla census / choice / writer)",
+     "note": "terminators inside string literals are known not to be counted (known finding); UTF-16 inputs are left to C09"},
+    {"id": "C09", "engine": "encoding", "level": "model_checking",
+     "text": "Encoding.tla is checked exhaustively for payloads <= 2 bytes (3 thorough) over a 20-byte alphabet x 6 forms, and for all 16 option triples; every emitted file is run through the binary and the printed bytes are compared with the bytes the model computes (zero tolerance: any difference is reported as drift, a property violation as an alarm); the decoder without the overlong check is shown to violate NeverAltered. All Unicode scalars x 4 encodings x {comment, string} are swept on the binary (1/16 seeded + boundary blocks in quick, all in thorough) and format(transcode(x)) = transcode(format(x)) is checked on dense programs, comment shapes and corpus files.",
+     "design_ref": "DESIGN.md 4/C09", "technique": TLA + " (Encoding.tla byte-level decoders / encoders)",
+     "note": "UTF-8/16 arithmetic over the full scalar range is bound by exhaustive execution, TLC covers the decision tree and the boundary forms"},
+]
 _PENDING = "check not built yet in this commit (specification module planned in DESIGN.md 3.1); will be claimed when its check is quiet on the unchanged tree"
 NOT_APPLICABLE = [{"property_id": "C%02d" % i, "reason": _PENDING} for i in range(1, 21) if "C%02d" % i not in {c["id"] for c in CHECKS}]
 NOTES = "All checks: bin/check <ID> --tier quick|thorough; VERIF_SEED is honoured; evidence in /verif/evidence/<ID>.json; known findings in /verif/known_findings.json."
